@@ -149,7 +149,11 @@ def run(ctx):
       with warnings.catch_warnings():
         warnings.simplefilter('ignore')
         M1 = Covariance().fit(X).get_mahalanobis_matrix()
-        Ms = Covariance().fit(X * S).get_mahalanobis_matrix()
+        # (every second time the same numbers held in single precision: they are exactly representable, and the covariance,
+        # its rank decision and its inverse are those of the numbers, not of the type that holds them)
+        Xs = (X * S).astype(np.float32) if i % 2 == 1 else X * S
+        ctx.hist('covariance_units.dtype', str(Xs.dtype))
+        Ms = np.asarray(Covariance().fit(Xs).get_mahalanobis_matrix(), dtype=float)
     except Exception as ex:
       ctx.fail_input('covariance', 'Covariance.fit raises %s' % type(ex).__name__, dict(X=(X * S).tolist()), observed=str(ex)[:200])
       continue
@@ -249,6 +253,10 @@ def run(ctx):
       ctx.hist('lfda.singleton_class', True)
     data = fits.make_data(rng, d=d, n_classes=ncls, n_per_class=sizes)
     X, y = data['X'], data['y']
+    if i % 4 == 2:
+      # integer-typed features of large magnitude (nanosecond timings, byte counts): column sums exceed 2^32
+      X = np.round(X * 2.0 ** 28).astype([np.int64, np.int32][(i // 4) % 2] if np.abs(X).max() * 2.0 ** 28 < 2.0 ** 31 else np.int64)
+      ctx.hist('lfda.integer_features', str(X.dtype))
     k = int(rng.integers(1, d + 2))
     etype = ['weighted', 'orthonormalized', 'plain'][i % 3]
     dim = int(rng.integers(1, d + 1))
@@ -262,7 +270,7 @@ def run(ctx):
     except Exception as ex:
       ctx.fail_input('lfda', 'LFDA.fit raises %s' % type(ex).__name__, inp, observed=str(ex)[:200])
       continue
-    r = check_lfda(e, X, y, keff, dim, etype)
+    r = check_lfda(e, np.asarray(X, dtype=float), y, keff, dim, etype)
     ctx.seen(('lfda', X.tolist(), y.tolist(), k, etype, dim), True)
     ctx.hist('lfda.embedding', etype)
     if r is not None:
